@@ -61,13 +61,34 @@ BASE = [
 # the reset lives in a second, small model so that model 0 stays analysable
 WITH_RESET = BASE + ["model 24 %s" % S("rm"), "component 25 %s" % S("rc"), "addcomponent 24 25", "variable 26 %s" % S("rv"),
                      "addvariable 25 26", "addreset 25 8", "setvariable 8 26", "settestvariable 8 26"]
+# the residues a history leaves behind (the same classes the stage-1 state classes are made of), produced by calls:
+RESIDUES = [
+    # expired equivalence entries: the partner was destroyed, no equivalence edit since (on t, x and the free variable)
+    "variable 27", "addequivalence 3 27", "release 27",
+    "variable 28", "addequivalence 4 28", "addequivalence 11 28", "release 28",
+    # import sources whose model expired
+    "model 29", "setmodel 14 29", "setmodel 9 29", "release 29",
+    # emptied containers after removeAll*
+    "component 30", "variable 31", "addvariable 30 31", "removeallvariables 30",
+    "units 32 %s" % S("tmp_u"), "addunits 24 32", "removeallunits 24",
+    # an entity moved between parents
+    "component 33 %s" % S("moved_c"), "addcomponent 24 33", "addcomponent 25 33",
+    # a reset whose variable's owner was destroyed
+    "reset 34 2", "addreset 25 34", "variable 35 %s" % S("lost_v"), "component 36", "addvariable 36 35",
+    "setvariable 34 35", "settestvariable 34 35", "release 36",
+    # a variable whose units object's model was destroyed
+    "units 37 %s" % S("gone_u"), "model 38", "addunits 38 37", "variable 39 %s" % S("w"), "addvariable 25 39",
+    "setunits_p 39 37", "release 38",
+]
 SERVICES = WITH_RESET + ["svc", "ann_setmodel 0", "ev_create 6", "an_addext", "an_analyse 0", "val_validate 0",
                          "imp_addimportsource 9", "imp_addmodel 15 %s" % S("lib.cellml")]
 # the annotator's model has been destroyed
 DEAD_MODEL = ["model 0 %s" % S("m"), "component 1 %s" % S("c"), "setid 1 %s" % S("cid"), "addcomponent 0 1", "variable 2 %s" % S("v"),
               "addvariable 1 2", "svc", "ann_setmodel 0", "release 0"]
 
-STATES = {"objects": WITH_RESET, "services": SERVICES, "deadmodel": DEAD_MODEL}
+SERVICE_SETUP = SERVICES[len(WITH_RESET):]
+STATES = {"objects": WITH_RESET, "services": SERVICES, "deadmodel": DEAD_MODEL,
+          "objects_residues": WITH_RESET + RESIDUES, "services_residues": WITH_RESET + RESIDUES + SERVICE_SETUP}
 
 COUNTS = {  # one past the end, per (receiver slot, list)
     ("comp", 0): 2, ("comp", 1): 0, ("var", 1): 2, ("reset", 25): 1, ("reset", 1): 0, ("units", 0): 1, ("unit", 7): 1,
@@ -287,6 +308,10 @@ def expand(table, state, svc):
 
 def all_cases():
     cases = expand(OBJ, "objects", False) + expand(SVC, "services", True)
+    # the same product from the state full of residues (component 25 holds one more reset there)
+    COUNTS[("reset", 25)] = 2
+    cases += expand(OBJ, "objects_residues", False) + expand(SVC, "services_residues", True)
+    COUNTS[("reset", 25)] = 1
     for st, extra, call, rk, exp, ep, cls in RECEIVER_CASES:
         cases.append({"state": st, "extra": extra, "call": call, "ret": rk, "expect": exp, "cmd": call.split()[0], "cls": cls,
                       "param": -1, "entry_point": ep})
